@@ -411,7 +411,29 @@ def tlc_sim(k, num, depth, wd):
     kk["PathLen"] = depth
     c = core.cfg(init="SimInit", next_="SimNext", constants=kk, invariants=M_INVS + P_INVS + ["PathDump"])
     return core.run_tlc("Sim_Lanes", c, wd, workers=1, timeout=1500, simulate="num=%d" % num,
-                        extra=["-depth", str(depth + 2), "-seed", str(core.seed())], coverage=False)
+                        extra=["-depth", str(2 * depth + 3), "-seed", str(core.seed())], coverage=False)
+
+
+def class_walks(g, n, depth, rng):
+    """random walks that first pick the class of the next call (write / sync / anything else) and then a call of that
+    class: a uniform choice among the out-edges would almost never drain a lane (many ways of writing to it, one of
+    asking it to write)"""
+    out = []
+    for _ in range(n):
+        cur = g.inits[rng.randrange(len(g.inits))]
+        acts = []
+        for _ in range(depth):
+            nxt = g.succ.get(cur)
+            if not nxt:
+                break
+            groups = {}
+            for a, t in nxt:
+                groups.setdefault("w" if a["k"] == "write" else "s" if a["k"] in ("sync", "dsync") else "m", []).append((a, t))
+            grp = groups[sorted(groups)[rng.randrange(len(groups))]]
+            a, cur = grp[rng.randrange(len(grp))]
+            acts.append(a)
+        out.append(acts)
+    return out
 
 
 # ----------------------------------------------------------------------------- alphabets for the exhaustive short sequences
@@ -613,7 +635,7 @@ def run_k(tier, out, wd, prop="C01"):
             paths = g.covering_paths(extend=pl["extend"], rng=rng, limit=pl["cover_limit"].get(kind))
             ncover = len(paths)
             nw, dw = pl["walks"]
-            paths += g.random_walks(nw, dw, rng)
+            paths += g.random_walks(nw // 2, dw, rng) + class_walks(g, nw - nw // 2, dw, rng)
             nwalk = len(paths) - ncover
             if gi == 0:
                 paths += g.all_paths(pl["deep"][kind], keep=deep_keep(kind))
@@ -651,6 +673,8 @@ def run_k(tier, out, wd, prop="C01"):
             core.log("[K-lanes] SIM %s: %d behaviours x %d calls (invariants incl. P held on all): conform=%d order-free=%d drift=%d rejected=%d" % (
                 kname(k), len(trails), depth, d["conform"], d["order_free"], d["drift"], d["rejected"]))
 
+    if prop is None:
+        probe_demand_map(out, wd)
     st = v.stats
     unvisited = sorted(a for a, (d, t) in cov.items() if t == 0)
     out.add(states=tot["states"], transitions=tot["transitions"],
@@ -676,6 +700,25 @@ def run_k(tier, out, wd, prop="C01"):
     out_stats = dict(st)
     out_stats.update(states=tot["states"], transitions=tot["transitions"], never_taken=unvisited)
     return out_stats
+
+
+def probe_demand_map(out, wd):
+    """Informational (no property of the list is about demand-map lanes, Lanes.tla does not model them): a DemandMapLane
+    driven the way the agent task drives it.  If a key returned by `keys` has no value by the time `on_cue_key` runs during
+    a sync, write_to_buffer answers NoData although the lane still owes the remote its `synced`; the agent loop neither
+    retries nor re-runs the lane's event handler after NoData.  Recorded as a note, never as a verdict."""
+    acts = [{"k": "src", "key": 1, "v": 5}, {"k": "src", "key": 2, "v": 6}, {"k": "sync", "id": "7"},
+            {"k": "src", "key": 1, "v": None}, {"k": "src", "key": 2, "v": None},
+            {"k": "write"}, {"k": "event"}, {"k": "write"}, {"k": "event"}, {"k": "write"}]
+    r = rp.run_cases(MEMBER, COMPONENT, [{"id": "dm-probe", "cfg": {"lane": "dm"}, "acts": acts}], wd, tag="dmprobe", strip=False)[0]
+    obs = r.get("obs", [])
+    writes = [o for a, o in zip(acts, obs) if a["k"] == "write"]
+    stalled = any(w.get("res") == "nodata" for w in writes[:-1]) and any(f.get("t") == "synced" for f in writes[-1].get("frames", [])) if writes else False
+    if stalled:
+        out.notes.append("observation (outside C01-C20, not a verdict): DemandMapLane::write_to_buffer returns NoData while a synced "
+                         "is still queued when on_cue_key yields None for a key of the sync snapshot; writes: %s" % json.dumps(
+                             [{"res": w.get("res"), "frames": [f.get("t") for f in w.get("frames", [])]} for w in writes]))
+    return stalled
 
 
 # ----------------------------------------------------------------------------- replay of one file
